@@ -480,6 +480,12 @@ class Parser:
         except SyntaxError as e:  # e.g. more digits than the int conversion limit: report it where the literal is
             self.raise_syntax_error_known_location(e.msg, number)
 
+    def pattern_string(self, value: ast.expr) -> ast.expr:
+        """A string used as a match pattern or mapping-pattern key: a path literal is a call, not a literal."""
+        if isinstance(value, ast.Call):
+            self.raise_syntax_error_known_location("patterns may only match literals and attribute lookups", value)
+        return value
+
     def ensure_real(self, number: TokenInfo) -> float | int:
         value = self.number_value(number)
         if not isinstance(value, float | int):
